@@ -355,6 +355,14 @@ def bounded(tier, seed):
                 f = np.zeros((2, 3), 'f')
                 f[0, 1] = sgn * d
                 check(f, 'difference %s2**k*(1-j*2**-23)' % ('-' if sgn < 0 else '+'))
+    # ramps whose every neighbour difference is EXACTLY a power of two (integer counters, 0/1 masks, dyadic ramps): several
+    # consecutive differences of the largest size, in both directions and down the first column as well
+    for k in (range(-100, 101, 9) if tier == 'quick' else range(-100, 101)):
+        step = np.float32(2.0 ** k)
+        for sgn in (1, -1):
+            check(np.array([[3, 2, 1, 0], [3, 2, 1, 0]], 'f') * step * sgn, 'ramp of differences exactly 2**k along the rows')
+            check(np.array([[3, 3], [2, 2], [1, 1], [0, 0]], 'f') * step * sgn, 'ramp of differences exactly 2**k down the first column')
+    check(np.array([[0, 1, 0, 1, 1, 0], [1, 0, 0, 1, 0, 1]], 'f'), '0/1 mask')
     # adversarial: negative difference close to -128 steps after a positive rounding error (from the z3 counter-model of the loop invariant)
     for a, b in ((0.51, -127.39), (0.49, -127.45), (0.3, -127.0), (0.51, -126.0)):
         check(np.array([[0, a, b], [0, 0, 0]]), 'negative difference of about -127.9 steps after a rounded-up cell')
